@@ -92,5 +92,7 @@ package httpsender
 //@   requires s != nil && s.client != nil && ctx != nil && errChan != nil && !closed(errChan)
 //@   mayblock
 //@   at call NewBuffer#1: assert arg0 == data
-//@   at call sendAnnounce#1: assert str(arg2) == str(announceURL) && arg4 == js
+//@   ghost own := zero("*bytes.Buffer")
+//@   at call NewBuffer#1: after ghost own := result
+//@   at call sendAnnounce#1: assert str(arg2) == str(announceURL) && arg4 == js && arg3 == own && isfresh(arg3)
 //@   ensures-local count("send:errChan") == 1 && count("call:sendAnnounce") == 1 && before("call:sendAnnounce", "send:errChan")
